@@ -556,10 +556,22 @@ theorem lift_ghost_values (M : Mesh α) (bc : BCs α) (dd : Dir) (c : Idx) (x : 
     (hx : ∀ j, x (c.set dd j) = x c) :
     (bc.periodicDir dd = true → ghostHi M bc x dd c = some (x c) ∧ ghostLo M bc x dd c = some (x c)) ∧
     (bc.periodicDir dd = false → (bc.hi dd).b c = 0 → (bc.hi dd).c c = 0 →
-      hiGhostCoef M bc dd c ≠ 0 → ghostHi M bc x dd c = some (x c)) := by
-  constructor
+      hiGhostCoef M bc dd c ≠ 0 → ghostHi M bc x dd c = some (x c)) ∧
+    (bc.periodicDir dd = false → (bc.lo dd).b c = 0 → (bc.lo dd).c c = 0 →
+      loGhostCoef M bc dd c ≠ 0 → ghostLo M bc x dd c = some (x c)) := by
+  refine ⟨?_, ?_, ?_⟩
   · intro hper
     simp [ghostHi, ghostLo, hper, hx]
+  rotate_left
+  · intro hper hb hc hg
+    have hg' := hg
+    simp only [loGhostCoef, hb, zero_div, add_zero] at hg'
+    simp only [ghostLo, hper, sdiv, loGhostCoef, loCellCoef, hb, hc, zero_div, add_zero, zero_sub,
+      eq_false hg', if_false, Bool.false_eq_true]
+    congr 1
+    obtain ⟨ha, hmd⟩ := div_ne_zero_iff.mp (neg_ne_zero.mp hg')
+    obtain ⟨hm, hd⟩ := mul_ne_zero_iff.mp hmd
+    field_simp
   · intro hper hb hc hg
     have hg' := hg
     simp only [hiGhostCoef, hb, zero_div, add_zero] at hg'
